@@ -72,7 +72,21 @@ def run_case(c):
     except Exception as e:
         return {"status": "ok", "stats": {"spec_rejected": 1, "rejected:" + type(e).__name__: 1}, "nontrivial": False}
     try:
-        R0 = ma.from_grammar(g)
+        if c["kind"] == "gen":
+            # The reference slices the UNSLICED grammar itself (independent reading of the slicing rule).  Unsliced = read
+            # with every party listed (nothing to hide).  parse(parties=P) keeps the messages SENT by P; without a party
+            # list, init_io hides the messages exchanged between two parties that fandango does not control.
+            import re as _re
+            with contextlib.redirect_stderr(io.StringIO()):
+                g_full, _ = fparse(text, use_stdlib=False, parties=list(allp))
+            if parties is not None:
+                R0 = ma.from_grammar(g_full, keep=set(parties), ignore_receivers=True)
+            else:
+                modes = dict(_re.findall(r"class (\w+)\(FandangoParty\):\n    def __init__\(self\):\n        super\(\).__init__\(connection_mode=ConnectionMode\.(\w+)\)", text))
+                R0 = ma.from_grammar(g_full, keep={p_ for p_, m_ in modes.items() if m_ == "OPEN"}, ignore_receivers=False)
+            stats["sliced_references_built_from_unsliced_grammar"] += 1
+        else:
+            R0 = ma.from_grammar(g)
     except RecursionError:
         return {"status": "ok", "stats": {"recursive_grammar_skipped": 1}, "nontrivial": False}
     except KeyError:
